@@ -123,6 +123,9 @@ class Opts:
         s.per_case_setup = kw.get('per_case_setup', False)
         s.mode = kw.get('mode', 'fork')                # 'fork': copy-on-write process per alternative; 'replay': re-execution
 
+G_TABLES = {}
+G_INBOUNDS = {}
+
 class ConcreteModel:
     """an assignment of the symbolic inputs; evaluates terms by substitution + simplification"""
     def __init__(s, pairs):
@@ -281,6 +284,8 @@ class Exec:
         s.arrcache = {}
         s.callees = {}
         s.path_model = None
+        s.path_known_feasible = True
+        s.has_fp_inputs = False; s.inc_solver = None; s.inc_n = 0
         s.replay = None; s.dpos = 0; s.trail = []; s.pending = None; s.nhook = 0; s.hookcache = None
         s.abstractor = Abstractor(); s.abs_queries = 0; s.abs_unsat = 0; s.abs_sat = 0
         if base is None: s.layout_globals()
@@ -526,18 +531,53 @@ class Exec:
         rt = s.tc.resolve(t)
         if rt.k not in ('int', 'ptr', 'double'): raise Unsupported('aggregate load through symbolic address')
         sz = s.tc.size(rt)
-        m = s.model_value(addr)
-        o = s.mem.find(m)
-        if not o.live: raise MemError('use after free (symbolic address)')
-        if o.size > 65536: raise Unsupported('symbolic address into a large object')
-        lo = z3.BitVecVal(o.base, 64); hi = z3.BitVecVal(o.base + o.size - sz, 64)
-        r = s.check(z3.Or(z3.ULT(addr, lo), z3.UGT(addr, hi)))
-        if r != 'unsat':
-            raise Unsupported('symbolic address may leave its object (%s)' % r)
-        arr = s.obj_array(o)
-        off = addr - lo
-        parts = [z3.Select(arr, off + z3.BitVecVal(i, 64)) for i in range(sz - 1, -1, -1)]
-        v = parts[0] if sz == 1 else z3.Concat(*parts)
+        pkey = (tuple(c.get_id() for c in s.path), addr.get_id(), sz)
+        hit = G_INBOUNDS.get(pkey)
+        if hit is None:
+            m = s.model_value(addr)
+            o = s.mem.find(m)
+            if not o.live: raise MemError('use after free (symbolic address)')
+            lo = z3.BitVecVal(o.base, 64); hi = z3.BitVecVal(o.base + o.size - sz, 64)
+            r = s.check(z3.Or(z3.ULT(addr, lo), z3.UGT(addr, hi)))
+            if r != 'unsat':
+                raise Unsupported('symbolic address may leave its object (%s)' % r)
+            G_INBOUNDS[pkey] = (o.base, addr, list(s.path))     # terms kept alive so that ids stay unique
+        else:
+            o = s.mem.find(hit[0])
+            if not o.live: raise MemError('use after free (symbolic address)')
+            lo = z3.BitVecVal(o.base, 64)
+        if o.size > 4096: raise Unsupported('symbolic address into an object of %d bytes' % o.size)
+        off = z3.simplify(addr - lo)
+        nbits = max(1, (o.size - 1).bit_length())
+        offn = z3.Extract(nbits - 1, 0, off) if nbits < 64 else off     # in-bounds was proved above
+        if o.sym:
+            sym = o.sym
+            def byte_at(i):
+                e = sym.get(i)
+                if e is None: return z3.BitVecVal(o.data[i], 8)
+                ex, bi = e
+                if is_fp(ex): ex = z3.fpToIEEEBV(ex)
+                return z3.Extract(bi * 8 + 7, bi * 8, ex)
+            val = None
+            for start in range(o.size - sz, -1, -1):
+                parts = [byte_at(start + i) for i in range(sz - 1, -1, -1)]
+                w = parts[0] if sz == 1 else z3.Concat(*parts)
+                val = w if val is None else z3.If(offn == z3.BitVecVal(start, nbits), w, val)
+            v = val
+        else:
+            # fully concrete object: the if-then-else chain over its offsets is built once per content and reused
+            key = (o.size, sz, bytes(o.data))
+            ent = G_TABLES.get(key)
+            if ent is None:
+                ph = z3.BitVec('__off_%d_%d' % (nbits, len(G_TABLES)), nbits)
+                val = None
+                data = o.data
+                for start in range(o.size - sz, -1, -1):
+                    w = z3.BitVecVal(int.from_bytes(data[start:start + sz], 'little'), sz * 8)
+                    val = w if val is None else z3.If(ph == z3.BitVecVal(start, nbits), w, val)
+                ent = (ph, val)
+                G_TABLES[key] = ent
+            v = z3.substitute(ent[1], (ent[0], offn))
         if rt.k == 'int' and rt.bits < sz * 8: v = z3.Extract(rt.bits - 1, 0, v)
         if rt.k == 'double': v = z3.fpBVToFP(v, F64)
         return norm(v)
@@ -825,7 +865,7 @@ class Exec:
         Abstraction first: floating-point products/quotients are replaced by fresh variables constrained by
         sound lemmas (NaN/inf/zero/sign propagation, monotonicity for equal constant factors). The abstraction
         over-approximates, so `unsat` there is `unsat` here; anything else is decided on the exact formula."""
-        if s.opts.abstraction and s.path_has_fp_arith(extra):
+        if s.opts.abstraction and s.has_fp_inputs and s.path_has_fp_arith(extra):
             t0 = time.time()
             sol = z3.Solver(); sol.set('rlimit', min(5000, s.opts.query_timeout_ms) * RL_PER_MS)
             ab = s.abstractor
@@ -862,6 +902,25 @@ class Exec:
                         return 'sat'
                 s.solver_time += time.time() - t1
         t0 = time.time()
+        if not s.has_fp_inputs:
+            # pure bit-vector problems: one incremental solver per path, constraints asserted once
+            sol = s.inc_solver
+            if sol is None:
+                sol = s.inc_solver = z3.Solver()
+                sol.set('rlimit', s.opts.query_timeout_ms * RL_PER_MS)
+                s.inc_n = 0
+            if s.inc_n < len(s.path):
+                sol.add(*s.path[s.inc_n:]); s.inc_n = len(s.path)
+            sol.push()
+            if extra is not None: sol.add(extra)
+            r = sol.check()
+            s.last_model = sol.model() if r == z3.sat else None
+            sol.pop()
+            dt = time.time() - t0
+            s.queries += 1; s.solver_time += dt
+            res = 'sat' if r == z3.sat else ('unsat' if r == z3.unsat else 'unknown')
+            if res == 'unknown': s.unknowns += 1
+            return res
         sol = z3.Solver()
         sol.set('rlimit', s.opts.query_timeout_ms * RL_PER_MS)
         if s.path: sol.add(*s.path)
@@ -935,7 +994,10 @@ class Exec:
         models = {}
         def compute():
             rt = s.check(c); models[1] = s.last_model
-            rf = s.check(nc); models[0] = s.last_model
+            if rt == 'unsat' and s.path_known_feasible:
+                rf = 'sat'; models[0] = None        # the path is feasible, so the other side must be
+            else:
+                rf = s.check(nc); models[0] = s.last_model
             if rt == 'unknown' or rf == 'unknown':
                 raise EndPath('undecided', 'solver returned unknown at a branch in %s' % (s.callstack[-1] if s.callstack else '?'))
             alts = ([1] if rt == 'sat' else []) + ([0] if rf == 'sat' else [])
@@ -1836,7 +1898,8 @@ class Exec:
             x, y, ln = a
             if is_sym(ln): ln = s.concretize(ln, 64, 64, 'memcmp length')
             if ln == 0: return 0
-            if is_sym(x) or is_sym(y): raise Unsupported('memcmp with symbolic pointer')
+            if is_sym(x): x = s.concretize(x, 64, what='memcmp pointer')
+            if is_sym(y): y = s.concretize(y, 64, what='memcmp pointer')
             if s.has_sym_bytes(x, ln) or s.has_sym_bytes(y, ln):
                 r = z3.BitVecVal(0, 32)
                 for i in range(ln - 1, -1, -1):
@@ -1939,6 +2002,7 @@ def h_f64(s, a):
     if s.concrete is not None:
         return bits_f64(s.concrete.get(('f', i), 0))
     v = s.symvars.get(('f', i))
+    s.has_fp_inputs = True
     if v is None:
         v = z3.BitVec('f%d' % i, 64); s.symvars[('f', i)] = v
     return z3.fpBVToFP(v, F64)
